@@ -12,35 +12,50 @@ open Mel.Merkle
 
 /-- the root computed by the tree algorithm is the root of the content -/
 theorem C07_root_of_content (H : Hashers) (n : Nat) (t : Tree) (h : t.WF n) : t.hash H = rootOf H n t.get := by
-  sorry
+  exact Tree.hash_eq_rootOf H n t h
 
 theorem C07_insert_wf (n : Nat) (t : Tree) (k : List Bool) (v : Bytes) (h : t.WF n) (hk : k.length = n) :
     (t.insert k v).WF n := by
-  sorry
+  exact Tree.insert_wf n t k v h hk
 
 /-- insertion is a map update (inserting the empty value deletes) -/
 theorem C07_get_insert (n : Nat) (t : Tree) (k k' : List Bool) (v : Bytes) (h : t.WF n) (hk : k.length = n)
     (hk' : k'.length = n) : (t.insert k v).get k' = if k' = k then v else t.get k' := by
-  sorry
+  exact Tree.get_insert n t k k' v h hk hk'
 
 /-- equal contents reached by different operation orders give equal roots -/
 theorem C07_equal_content_equal_root (H : Hashers) (n : Nat) (t₁ t₂ : Tree) (h₁ : t₁.WF n) (h₂ : t₂.WF n)
     (hc : ∀ k, k.length = n → t₁.get k = t₂.get k) : t₁.hash H = t₂.hash H := by
-  sorry
+  rw [C07_root_of_content H n t₁ h₁, C07_root_of_content H n t₂ h₂]
+  exact rootOf_congr H n _ _ hc
 
 theorem C07_insert_commute (H : Hashers) (n : Nat) (t : Tree) (k₁ k₂ : List Bool) (v₁ v₂ : Bytes) (h : t.WF n)
     (h₁ : k₁.length = n) (h₂ : k₂.length = n) (hne : k₁ ≠ k₂) :
     ((t.insert k₁ v₁).insert k₂ v₂).hash H = ((t.insert k₂ v₂).insert k₁ v₁).hash H := by
-  sorry
+  have w₁ := C07_insert_wf n t k₁ v₁ h h₁
+  have w₂ := C07_insert_wf n t k₂ v₂ h h₂
+  apply C07_equal_content_equal_root H n _ _ (C07_insert_wf n _ k₂ v₂ w₁ h₂) (C07_insert_wf n _ k₁ v₁ w₂ h₁)
+  intro k hk
+  rw [C07_get_insert n _ k₂ k v₂ w₁ h₂ hk, C07_get_insert n _ k₁ k v₁ h h₁ hk,
+    C07_get_insert n _ k₁ k v₁ w₂ h₁ hk, C07_get_insert n _ k₂ k v₂ h h₂ hk]
+  by_cases e₁ : k = k₁
+  · subst e₁; simp [hne]
+  · simp [e₁]
 
 theorem C07_delete_restores (H : Hashers) (n : Nat) (t : Tree) (k : List Bool) (v : Bytes) (h : t.WF n)
     (hk : k.length = n) (habs : t.get k = []) : ((t.insert k v).insert k []).hash H = t.hash H := by
-  sorry
+  have w := C07_insert_wf n t k v h hk
+  apply C07_equal_content_equal_root H n _ _ (C07_insert_wf n _ k [] w hk) h
+  intro k' hk'
+  rw [C07_get_insert n _ k k' [] w hk hk', C07_get_insert n _ k k' v h hk hk']
+  by_cases e : k' = k
+  · simp [e, habs]
+  · simp [e]
 
 /-- completeness: the generated proof verifies, for present keys (their value) and absent keys (the empty value) -/
 theorem C07_proof_complete (H : Hashers) (n : Nat) (t : Tree) (k : List Bool) (h : t.WF n) (hk : k.length = n) :
     verify H (t.hash H) k (t.get k) (t.prove H k) = true := by
-  sorry
+  exact (verify_iff H _ _ _ _).mpr (Tree.prove_fold H n t k h hk).symm
 
 /-- the hash functions are injective away from the two zero rules -/
 structure Injective (H : Hashers) : Prop where
@@ -54,17 +69,104 @@ structure Injective (H : Hashers) : Prop where
 theorem C07_proof_sound (H : Hashers) (hi : Injective H) (n : Nat) (t : Tree) (k : List Bool) (v : Bytes)
     (proof : List Hash) (h : t.WF n) (hk : k.length = n) (hp : proof.length = n)
     (hv : verify H (t.hash H) k v proof = true) : t.get k = v := by
-  sorry
+  exact Tree.fold_sound H ⟨hi.data_inj, hi.data_nz, hi.node_inj, hi.node_nz⟩ n t k v proof h hk hp
+    ((verify_iff H _ _ _ _).mp hv)
 
 /-- different contents have different roots -/
 theorem C07_different_content_different_root (H : Hashers) (hi : Injective H) (n : Nat) (t₁ t₂ : Tree)
     (h₁ : t₁.WF n) (h₂ : t₂.WF n) (hr : t₁.hash H = t₂.hash H) : ∀ k, k.length = n → t₁.get k = t₂.get k := by
-  sorry
+  intro k hk
+  have hc := C07_proof_complete H n t₁ k h₁ hk
+  rw [hr] at hc
+  exact (C07_proof_sound H hi n t₂ k (t₁.get k) (t₁.prove H k) h₂ hk (by rw [Tree.prove_length, hk]) hc).symm
 
 /-! ### dense Merkle tree (TIP-908 transaction commitment) -/
 
 theorem C07_dense_complete (H : Hashers) (blocks : List Bytes) (i : Nat) (hi : i < blocks.length) :
     verifyDense H (denseProof H blocks i) (denseRoot H blocks) i (hashData H (blocks.getD i [])) = true := by
-  sorry
+  exact dense_complete H blocks i hi
+
+/-! ### non-vacuity: concrete hashers and a concrete tree -/
+
+namespace C07Example
+
+/-- toy hashers from the task statement (tag byte, length byte, concatenation) -/
+def H₀ : Hashers := { hData := fun v => 1 :: v, hNode := fun l r => 2 :: (UInt8.ofNat l.length :: l ++ r) }
+
+def k₁ : List Bool := [false, true, false]
+def k₂ : List Bool := [true, true, false]
+def k₃ : List Bool := [true, false, true]
+def kAbs : List Bool := [false, false, false]
+
+def t₀ : Tree := ((Tree.empty.insert k₁ [10]).insert k₂ [20, 21]).insert k₃ [30]
+
+example : t₀.WF 3 := by simp [t₀, k₁, k₂, k₃, Tree.insert, Tree.WF]
+
+/-- the tree verifies its own proofs (present and absent keys) and rejects wrong values -/
+example :
+    verify H₀ (t₀.hash H₀) k₁ [10] (t₀.prove H₀ k₁) = true ∧
+    verify H₀ (t₀.hash H₀) k₂ [20, 21] (t₀.prove H₀ k₂) = true ∧
+    verify H₀ (t₀.hash H₀) k₃ [30] (t₀.prove H₀ k₃) = true ∧
+    verify H₀ (t₀.hash H₀) kAbs [] (t₀.prove H₀ kAbs) = true ∧
+    verify H₀ (t₀.hash H₀) k₁ [11] (t₀.prove H₀ k₁) = false ∧
+    verify H₀ (t₀.hash H₀) kAbs [10] (t₀.prove H₀ kAbs) = false ∧
+    verify H₀ (t₀.hash H₀) k₁ [] (t₀.prove H₀ k₁) = false := by
+  decide
+
+/-- a dense tree over three blocks verifies its proofs and rejects a wrong leaf -/
+example :
+    verifyDense H₀ (denseProof H₀ [[1], [2], [3]] 2) (denseRoot H₀ [[1], [2], [3]]) 2 (hashData H₀ [3]) = true ∧
+    verifyDense H₀ (denseProof H₀ [[1], [2], [3]] 2) (denseRoot H₀ [[1], [2], [3]]) 2 (hashData H₀ [4]) = false := by
+  decide
+
+/-- prefix-free encoding of a byte string: every byte is preceded by a `1` marker -/
+def enc (l : Bytes) : Bytes := l.flatMap fun x => [1, x]
+
+theorem enc_inj (l l' r r' : Bytes) (h : enc l ++ 0 :: r = enc l' ++ 0 :: r') : l = l' ∧ r = r' := by
+  induction l generalizing l' with
+  | nil =>
+    cases l' with
+    | nil => simpa [enc] using h
+    | cons x l' => simp [enc] at h
+  | cons x l ih =>
+    cases l' with
+    | nil => simp [enc] at h
+    | cons y l' =>
+      simp only [enc, List.flatMap_cons, List.cons_append, List.nil_append, List.cons.injEq, true_and] at h
+      obtain ⟨hxy, h⟩ := h
+      obtain ⟨hl, hr⟩ := ih l' h
+      exact ⟨by rw [hxy, hl], hr⟩
+
+/-- hashers that are injective for inputs of every length: the `Injective` hypothesis is satisfiable -/
+def H₁ : Hashers := { hData := fun v => 1 :: v, hNode := fun l r => 2 :: (enc l ++ 0 :: r) }
+
+theorem H₁_injective : Injective H₁ where
+  data_inj := by intro a b _ _ h; simpa [H₁] using h
+  data_nz := by intro a _ h; simp [H₁, Z, zeroHash, List.replicate] at h
+  node_inj := by
+    intro l r l' r' _ _ h
+    simp only [H₁, List.cons.injEq, true_and] at h
+    exact enc_inj l l' r r' h
+  node_nz := by intro l r _ h; simp [H₁, Z, zeroHash, List.replicate] at h
+
+/-- soundness instantiated: no proof of length 3 can show a wrong value for `k₁` in `t₀` -/
+example (proof : List Hash) (hp : proof.length = 3) (v : Bytes)
+    (hv : verify H₁ (t₀.hash H₁) k₁ v proof = true) : v = [10] := by
+  have hwf : t₀.WF 3 := by simp [t₀, k₁, k₂, k₃, Tree.insert, Tree.WF]
+  have := C07_proof_sound H₁ H₁_injective 3 t₀ k₁ v proof hwf rfl hp hv
+  rw [← this]; rfl
+
+end C07Example
 
 end Mel
+
+#print axioms Mel.C07_root_of_content
+#print axioms Mel.C07_insert_wf
+#print axioms Mel.C07_get_insert
+#print axioms Mel.C07_equal_content_equal_root
+#print axioms Mel.C07_insert_commute
+#print axioms Mel.C07_delete_restores
+#print axioms Mel.C07_proof_complete
+#print axioms Mel.C07_proof_sound
+#print axioms Mel.C07_different_content_different_root
+#print axioms Mel.C07_dense_complete
